@@ -10,6 +10,7 @@ import (
 	"io"
 	"net/http"
 	"os"
+	"runtime"
 	"runtime/debug"
 	"strconv"
 	"strings"
@@ -97,7 +98,31 @@ var c01ConnVals = []string{"Connection: keep-alive", "Connection: close", "Conne
 const c01Embedded = "GET /smug HTTP/1.1\r\nHost: h\r\n\r\n"
 
 // Body bytes. Index 0 ("auto") = the well-formed body for the request's own framing headers.
-var c01Bodies = append(c01BodiesBase, c01ExtBreakBodies()...)
+var c01Bodies = append(append(c01BodiesBase, c01ExtBreakBodies()...), c01HugeSizeBodies()...)
+
+// c01HugeSizeBodies: chunk sizes of 15, 16 and 17 hex digits with the top bit clear and set (7ff..f, 800..0, ff..fe,
+// ff..ff), the 15- and 16-digit ones also with one or two leading zeros, placed on the first chunk and on a later
+// chunk that follows a chunk whose data ends in CRLF; then the last-chunk (and the canary of the pipeline).
+func c01HugeSizeBodies() []string {
+	var sizes []string
+	pat := func(n int) []string {
+		return []string{"7" + strings.Repeat("f", n-1), "8" + strings.Repeat("0", n-1), strings.Repeat("f", n-1) + "e", strings.Repeat("f", n)}
+	}
+	for _, n := range []int{15, 16, 17} {
+		sizes = append(sizes, pat(n)...)
+	}
+	for _, p := range pat(15) {
+		sizes = append(sizes, "0"+p, "00"+p)
+	}
+	for _, p := range pat(16) {
+		sizes = append(sizes, "0"+p)
+	}
+	var out []string
+	for _, sz := range sizes {
+		out = append(out, sz+"\r\n0\r\n\r\n", "5\r\nhel\r\n\r\n"+sz+"\r\n0\r\n\r\n")
+	}
+	return out
+}
 
 // c01ExtBreakBodies: a three-chunk body ("hel", "lo", last chunk) in which one chunk-size line carries an extension of
 // the form ;x / ;x=y / ;x="q" with a line break {bare LF, bare CR, CRLF} inside the extension name, value or quoted
@@ -453,12 +478,50 @@ func c01Chunks(stream []byte, chunking string) [][]byte {
 }
 
 // c01Check runs one (pipeline, config, chunking) and evaluates the oracle.
+// c01PanicClass turns a recovered panic into a stable class: the message without its numbers plus the innermost
+// function of the code under test on the panicking stack.
+func c01PanicClass(e any) string {
+	msg := fmt.Sprint(e)
+	if i := strings.IndexAny(msg, "[0123456789"); i > 0 {
+		msg = msg[:i]
+	}
+	msg = strings.Trim(strings.Map(func(r rune) rune {
+		if r >= 'a' && r <= 'z' || r >= 'A' && r <= 'Z' {
+			return r
+		}
+		return '-'
+	}, msg), "-")
+	for strings.Contains(msg, "--") {
+		msg = strings.ReplaceAll(msg, "--", "-")
+	}
+	where := "?"
+	pc := make([]uintptr, 64)
+	frames := runtime.CallersFrames(pc[:runtime.Callers(2, pc)])
+	for {
+		f, more := frames.Next()
+		if strings.HasPrefix(f.Function, "github.com/valyala/fasthttp.") && !strings.Contains(f.File, "zz_verif_") && !strings.Contains(f.Function, "c01") {
+			where = strings.TrimPrefix(f.Function, "github.com/valyala/fasthttp.")
+			break
+		}
+		if !more {
+			break
+		}
+	}
+	return "panic:" + msg + "[" + where + "]"
+}
+
 func c01Check(r *vrt.R, cs *c01Case, cfg c01Cfg, chunking string, st *c01Stats) {
-	run := c01Serve(cfg, c01Chunks(cs.stream, chunking))
-	st.runs++
 	viol := func(sig, what string) {
 		r.Violation(sig, fmt.Sprintf("%s [config %s, reads %s] stream=%s", what, cfg, chunking, vrt.Q(c01Clip(cs.stream))), c01Artefact(cs.stream, cfg, chunking))
 	}
+	// a panic of the code under test (or one it provokes in this driver) is a finding about that case, not a tool error
+	defer func() {
+		if e := recover(); e != nil {
+			viol(c01PanicClass(e), fmt.Sprintf("panic while serving the connection: %v", e))
+		}
+	}()
+	run := c01Serve(cfg, c01Chunks(cs.stream, chunking))
+	st.runs++
 	if run.outputJunk != "" {
 		viol("server-output-not-http", "bytes written by the server do not parse as HTTP responses: "+run.outputJunk)
 		return
@@ -897,7 +960,7 @@ func TestVerif_C01(t *testing.T) {
 	devPair := vrt.Pick(r, 2, 2)
 	cfgs := c01AllCfgs()
 	r.Rule(fmt.Sprintf("pipelines [A, canary] with <=%d and [A, B, canary] with <=%d non-canonical slot choices in total; slots per request: method(%d) target(%d) version(%d) "+
-		"request-line shape(%d) Host(%d) Content-Length lines(%d) Transfer-Encoding lines x order(%d) line endings(%d) extra header(%d) body bytes(%d, incl. 45 chunked bodies with a line break inside a chunk extension) Connection line {absent, keep-alive, close, Keep-Alive} x {before, after the framing headers}(%d); each pipeline x 16 flag "+
+		"request-line shape(%d) Host(%d) Content-Length lines(%d) Transfer-Encoding lines x order(%d) line endings(%d) extra header(%d) body bytes(%d, incl. 45 chunked bodies with a line break inside a chunk extension and 48 with 15/16/17-digit chunk sizes around the sign bit on the first / a later chunk) Connection line {absent, keep-alive, close, Keep-Alive} x {before, after the framing headers}(%d); each pipeline x 16 flag "+
 		"combinations (ReduceMemoryUsage, DisableHeaderNamesNormalizing, GetOnly, DisablePreParseMultipartForm) x ReadBufferSize {128,4096} delivered whole, plus {1-byte dribble, one split inside "+
 		"the first head's final line terminator; thorough: every split offset for <=1-deviation pipelines} x {ReduceMemoryUsage} x ReadBufferSize {128,4096} (two-request and 3-deviation pipelines: 16 flag "+
 		"combinations whole at 4096, {ReduceMemoryUsage} whole at 128 and dribbled at 4096), through Server.ServeConn on a scripted connection. Oracle: own RFC 9112 framing reference "+
